@@ -35,10 +35,92 @@ def run(repo: Repo, chk: Check) -> None:
         "inputs."
     )
     dispatch(repo, chk)
+    single_kernel(repo, chk)
     equivalence(repo, chk)
     tables(repo, chk)
     rescale(repo, chk)
     lower_body(repo, chk)
+
+
+# --------------------------------------------------------------------------- the dispatched body is one kernel op and the yield
+def _block_position(x: ast.expr, site: Site, fn: ast.FunctionDef) -> tuple[str, int | None] | None:
+    """(block text, position) of the op `x` denotes inside a block: 0 / 1 / -1 (last), None if not recognised. `next(it)` on an iterator over the
+    block's ops counts the next() calls on that iterator in evaluation order (only straight-line code)"""
+    if isinstance(x, ast.Call) and callee_name(x) == "next" and len(x.args) == 1 and isinstance(x.args[0], ast.Name):
+        it = x.args[0].id
+        defs = [n for n in ast.walk(fn) if isinstance(n, ast.Assign) and len(n.targets) == 1 and isinstance(n.targets[0], ast.Name) and n.targets[0].id == it]
+        if len(defs) != 1:
+            return None
+        m = norm.any_match(["iter($b.ops)"], defs[0].value)
+        if m is None:
+            return None
+        calls = sorted([n for n in ast.walk(fn) if isinstance(n, ast.Call) and callee_name(n) == "next" and n.args and isinstance(n.args[0], ast.Name) and n.args[0].id == it],
+                       key=lambda n: (n.lineno, n.col_offset))
+        in_loop = any(isinstance(l, (ast.For, ast.While)) and any(c is n for n in ast.walk(l) for c in calls) for l in ast.walk(fn))
+        other_use = [n for n in ast.walk(fn) if isinstance(n, ast.Name) and n.id == it and isinstance(n.ctx, ast.Load)]
+        if in_loop or len(other_use) != len(calls):
+            return None
+        return ast.unparse(norm.primary(site.expand(m["b"]))), [id(c) for c in calls].index(id(x))
+    e = norm.primary(site.expand(x))
+    pos = 0
+    cur = e
+    while isinstance(cur, ast.Attribute) and cur.attr == "next_op":
+        pos += 1
+        cur = cur.value
+    m = norm.any_match(["$b.first_op", "$b.ops.first"], cur)
+    if m is not None:
+        return ast.unparse(m["b"]), pos
+    if pos == 0:
+        m = norm.any_match(["$b.last_op", "$b.ops.last"], cur)
+        if m is not None:
+            return ast.unparse(m["b"]), -1
+        m = norm.any_match(["next(iter($b.ops))"], cur)
+        if m is not None:
+            return ast.unparse(m["b"]), 0
+    return None
+
+
+def single_kernel(repo: Repo, chk: Check) -> None:
+    chk.rule(
+        "C18.single-kernel",
+        "an op gets a library call only if its body is ONE kernel op directly followed by the yield: the op tested for linalg.yield is the one right "
+        "behind the kernel op (a test on the block's last op is vacuous - the terminator is always last - and lets bodies with further ops be dispatched "
+        "to an accelerator that implements only their first op)",
+        floor=2,
+    )
+    f, fl = flow_of(repo, chk, DISP, "DispatchTemplatePattern.match_and_rewrite")
+    lib = [s for s in fl.stmts(ast.Assign) if s.reachable and isinstance(s.node.targets[0], ast.Attribute) and s.node.targets[0].attr == "library_call"]
+    if not lib:
+        raise AnalysisError(f"{f.where}: assignment of the library call not found")
+    tests: dict[str, list[tuple[ast.expr, Site]]] = {"kernel": [], "yield": []}
+    for s in fl.sites:
+        if not s.reachable or s.node is not s.stmt or not isinstance(s.node, (ast.If, ast.Assert)):
+            continue
+        for n in ast.walk(s.node.test):
+            if isinstance(n, ast.Call) and callee_name(n) == "isinstance" and len(n.args) == 2:
+                cls = ast.unparse(n.args[1])
+                if cls.split(".")[-1] == "KernelOp":
+                    tests["kernel"].append((n.args[0], s))
+                if cls.split(".")[-1] == "YieldOp":
+                    tests["yield"].append((n.args[0], s))
+    if not tests["kernel"] or not tests["yield"]:
+        raise AnalysisError(f"{f.where}: the tests for the kernel op and for the yield behind it were not found ({ {k: len(v) for k, v in tests.items()} })")
+    kpos = [_block_position(x, s, f.node) for x, s in tests["kernel"]]
+    ypos = [_block_position(x, s, f.node) for x, s in tests["yield"]]
+    if any(p is None for p in kpos + ypos):
+        raise AnalysisError(f"{f.where}: which op of the body is tested is not recognised ({[ast.unparse(x) for x, _ in tests['kernel'] + tests['yield']]})")
+    kb, kp = kpos[0]  # type: ignore[misc]
+    chk.result(kp == 0 and all(p == (kb, 0) for p in kpos), "C18.single-kernel", f"{f.key}:kernel-first", tests["kernel"][0][1].where(),
+               "the kernel op is the first op of the body", f"the op tested for KernelOp is at position {kp} of the body")
+    # both tests dominate the assignment of the library call
+    dom = all(any("KernelOp)" in t and t.startswith("isinstance(") for t in s.fact_texts) and any("YieldOp)" in t and t.startswith("isinstance(") for t in s.fact_texts) for s in lib)
+    good = [p for p in ypos if p == (kb, 1)]
+    vac = [p for p in ypos if p is not None and p[1] == -1]
+    len2 = any(norm.any_match(["len($b.ops) == 2", "len(list($b.ops)) == 2"], fa.expr) is not None for s in lib for fa in s.facts if fa.kind == "atom")
+    chk.result(bool(good or len2) and dom, "C18.single-kernel", f"{f.key}:yield-next", tests["yield"][0][1].where(),
+               "the op right behind the kernel op is the yield, on every path that sets the library call",
+               ("the yield test looks at the block's LAST op, which is the terminator of every body: a body `kernel.add; arith.subi; yield` is dispatched to an accelerator "
+                "that implements only kernel.add" if vac and not good else f"the yield test does not look at the op right behind the kernel op (positions {ypos}; dominates: {dom})"))
 
 
 # --------------------------------------------------------------------------- ineffective checks
